@@ -33,6 +33,8 @@ def fixed_families():
                      alpha=[A, 0xC3, 0xA9]))
     # 4-way fan-out at root and below, only leaves at depth 2 carry tokens on one branch (interior nodes without token)
     fams.append(dict(name="fanout", words=[_w(x) for x in ["a", "b", "c", "d", "aa", "ab", "ac", "ad", "dca", "dcb", "dd"]], alpha=[A, B, C_, D]))
+    # tiny byte-complete vocabulary for the functions that build vectors / chase node pointers (greedy, chop)
+    fams.append(dict(name="tiny", words=[_w(x) for x in ["a", "b", "ab", "bab"]], alpha=[A, B]))
     return fams
 
 
